@@ -128,7 +128,7 @@ def seed_sim():
         code_cell("alpha = load_table('two')\nbeta = alpha.filter(col > 3)\nbeta.plot()\n", id='s1', ec=2,
                   outputs=[stream("loaded 12 rows\n")]),
         code_cell("alpha = load_table('one')\nbeta = alpha.filter(col > 3)\nbeta.plot()\n", id='s2'),
-        md_cell("x\r\ny\x0cz w", id='s3'),
+        md_cell("x\r\ny\x0cz\u2028w\nplain line after the separators\nlast line\n", id='s3'),
         code_cell("<<<<<<< local\n\\ No newline at end of file\nnaïve café ☃", id='s4'),
     ]
     return notebook(cells, 5, {})
@@ -499,6 +499,79 @@ def outputs_edits(outs):
         if ot == 'error':
             no = cp(o); no['evalue'] = 'another value'
             out.append(('err%d:evalue' % q, O, outs[:q] + [no] + outs[q + 1:]))
+    return out
+
+
+# --------------------------------------------------------------------------------------------
+# runs: several items inserted at one position by one side (concurrent-insert splitting needs runs
+# of unequal length on the two sides, with dissimilar items followed by similar ones)
+# --------------------------------------------------------------------------------------------
+
+RUN_CELLS = ('C1', 'C2', 'C3', 'M1', 'M2')
+RUN_OUTPUTS = ('Ostream', 'Ostream2', 'Oerr', 'Odisp', 'Ostderr')
+OUTPUT_POOL2 = dict(OUTPUT_POOL)
+OUTPUT_POOL2['Ostream2'] = stream("result is 1\nthird line, slightly changed\n")
+
+
+def cell_runs(seed, pos, maxlen, names=RUN_CELLS):
+    import itertools
+    pool = dict(cell_pool(seed['nbformat_minor'] >= 5))
+    out = []
+    for n in range(1, maxlen + 1):
+        for perm in itertools.permutations(names, n):
+            nb = dict(seed)
+            nb['cells'] = seed['cells'][:pos] + [cp(pool[x]) for x in perm] + seed['cells'][pos:]
+            out.append(('cellrun@%d:%s' % (pos, '+'.join(perm)), _tags(kind='cell-insert', pos=pos), cp(nb)))
+    return out
+
+
+def output_runs(seed, cell, maxlen, names=RUN_OUTPUTS):
+    import itertools
+    out = []
+    for n in range(1, maxlen + 1):
+        for perm in itertools.permutations(names, n):
+            nb = cp(seed)
+            nb['cells'][cell]['outputs'] = nb['cells'][cell]['outputs'] + [cp(OUTPUT_POOL2[x]) for x in perm]
+            out.append(('outrun@%d:%s' % (cell, '+'.join(perm)), _tags(cell=cell, cats=('outputs',), kind='outputs'), nb))
+    return out
+
+
+# --------------------------------------------------------------------------------------------
+# focused depth-2 families: two edits by the same side inside one field of one cell (index arithmetic
+# across several chunks / several decisions on one path only shows with more than one edit per side)
+# --------------------------------------------------------------------------------------------
+
+FOCUS = {
+    'outputs': ('out@0:stream0:append', 'out@0:stream0:first', 'out@0:data1:plain', 'out@0:data1:png', 'out@0:ometa1:set', 'out@0:ometa1:width',
+                'out@0:oec1', 'out@0:append:Oerr', 'out@0:delete0', 'ec@0:7'),
+    'source': ('src@0:repl0:a', 'src@0:repl0:b', 'src@0:repl2:a', 'src@0:repl2:b', 'src@0:del1', 'src@0:ins1', 'src@0:tweak1', 'src@0:append-unterminated',
+               'src@0:terminate'),
+    'meta': ('cellmeta@2:tags+extra', 'cellmeta@2:tags+other', 'cellmeta@2:collapsed-flip', 'cellmeta@2:custom=a1', 'cellmeta@2:custom=a2', 'cellmeta@2:level-2',
+             'nbmeta:kspec-name', 'nbmeta:kspec-name:b', 'nbmeta:tags=new', 'nbmeta:x=lists'),
+    'attachments': ('att@1:add:b1', 'att@1:add:b2', 'att@1:replace:2', 'att@1:replace:3', 'att@1:rename', 'att@1:add-mime', 'src@1:repl1:a', 'src@1:repl1:b'),
+}
+
+
+def focus2(seed, field):
+    """All states reached by one or two edits drawn from FOCUS[field] (labels are matched again after the first edit)."""
+    allowed = set(FOCUS[field])
+    seen = {canon(seed)}
+    out = []
+    first = [(l, t, n) for l, t, n in succ_valid(seed) if l in allowed]
+    for l, t, n in first:
+        k = canon(n)
+        if k not in seen:
+            seen.add(k)
+            out.append((l, t, n))
+    for l1, t1, n1 in first:
+        for l2, t2, n2 in succ_valid(n1):
+            if l2 in allowed and l2 != l1:
+                k = canon(n2)
+                if k not in seen:
+                    seen.add(k)
+                    g1 = t1.get('multi') or (t1['cats'],)
+                    g2 = t2.get('multi') or (t2['cats'],)
+                    out.append((l1 + '+' + l2, _tags(cell=t1.get('cell'), cats=(), kind='focus2', multi=tuple(g1) + tuple(g2)), n2))
     return out
 
 
